@@ -254,6 +254,20 @@ theorem C06_pretty_same_instructions_checked (tk : Name → PTok) (ss : List Ast
     (x : List Ast) (hx : parseToks (prettyProgram tk (normList ss)).toks = some x) : compileStmts x = compileStmts ss :=
   C06_pretty_same_instructions tk ss (goodStmtsB_sound tk _ h) x hx
 
+/-- **text level, canonical spacing**: the printed token sequence written with one blank behind every token is read back
+— tokenizer, `yylex` classification, parser — as the normal form of the printed statements, which compiles to the
+instructions of the original. (The printer's own spacing — no blank behind `(`, `[`, in front of `)`, `]`, `,`, `;`, line
+breaks and indentation — is covered by the driver's per-program comparison `tokens=agree`, not by this theorem.) -/
+theorem C06_pretty_text_canonical_spacing (reg : Registry) (tk : Name → PTok) (ss : List Ast)
+    (h : GoodStmts tk (normList ss))
+    (hl : ∀ t ∈ (prettyProgram tk (normList ss)).lead ++ D.toksSeq (prettyProgram tk (normList ss)).stmts,
+      Sqf.LexRound.lexable reg t = true) :
+    (∃ f, ∀ f', f ≤ f' → pStatements f' (skipSeps (ptoks reg (Sqf.Props.C01.progText (prettyProgram tk (normList ss))))) =
+      some (normList ss, [.eof])) ∧ compileStmts (normList ss) = compileStmts ss := by
+  refine ⟨?_, compileStmts_norm ss⟩
+  have := Sqf.Props.C01.C01_parse_render_text reg (prettyProgram tk (normList ss)) (prettyProgram_WP tk _ h) hl
+  rwa [prettyProgram_erase] at this
+
 /-- a registry for the sample below: `+` binary (level 6) and unary, `*` binary (level 7), `hint` unary -/
 def sampleTk (n : Name) : PTok :=
   if n == [43] then .op .bu 6 n else if n == [42] then .op .b 7 n else if n == n!"hint" then .opU n else .ident n
